@@ -215,7 +215,11 @@ fn run_dispatch(cfg: &Cfg) -> (Probes, Obs, Vec<ExecEnd>) {
         MultiKind::AA => run_multi::<ChannelMultiArcAtomic<u32, 8, 2>, $I>(cfg), MultiKind::AF => run_multi::<ChannelMultiArcFullSync<u32, 8, 2>, $I>(cfg), MultiKind::AC => run_multi::<ChannelMultiArcCrossbeam<u32, 8, 2>, $I>(cfg),
         MultiKind::OA => run_multi::<ChannelMultiOgreArcAtomic<u32, 8, 2>, $I>(cfg), MultiKind::OF => run_multi::<ChannelMultiOgreArcFullSync<u32, 8, 2>, $I>(cfg), MultiKind::ML => run_multi::<ChannelMultiMmapLog<u32, 2>, $I>(cfg) } } }
     if cfg.uni.is_some() {
-        match (cfg.m, cfg.instruments) { (1, 0) => uni!(1, 0), (1, 7) => uni!(1, 7), (2, 0) => uni!(2, 0), (2, 7) => uni!(2, 7), (4, 7) => uni!(4, 7), x => panic!("uni (M, I) = {:?}", x) }
+        // (few (MAX_STREAMS, instruments) pairs: every pair instantiates all executor code for every channel kind; instrument settings are C11's business)
+        match (cfg.m, cfg.instruments, cfg.uni.unwrap()) {
+            (1, 7, _) => uni!(1, 7), (2, 0, _) => uni!(2, 0),
+            (4, 7, UniKind::MF) => run_uni::<ChannelUniMoveFullSync<u32, 8, 4>, 7>(cfg), (4, 7, UniKind::ZA) => run_uni::<ChannelUniZeroCopyAtomic<u32, 8, 4>, 7>(cfg),
+            x => panic!("uni (M, I, kind) = {:?}", x) }
     } else {
         match cfg.instruments { 0 => multi!(0), 7 => multi!(7), x => panic!("multi I = {x}") }
     }
@@ -299,10 +303,9 @@ pub fn configs(prop: &str, tier: Tier) -> Vec<Cfg> {
                         if quick && (close_delay_ms == 3 || (gap_ms == 1 && pre == Pre::CancelAll)) { continue }
                         if seq.is_empty() && (gap_ms, close_delay_ms) != (0, 0) { continue }
                         for kind in UniKind::ALL {
-                            for (m, instruments) in [(1usize, 0usize), (1, 7), (2, 0), (2, 7), (4, 7)] {
+                            for (m, instruments) in [(1usize, 7usize), (2, 0), (4, 7)] {
                                 // MAX_STREAMS must be a power of two (3 does not compile)
                                 if m >= 3 && !(prop == "C12" && matches!(kind, UniKind::MF | UniKind::ZA)) { continue }
-                                if quick && ((m, instruments) == (1, 0) || (m, instruments) == (2, 7)) { continue }
                                 if quick && limit == 4 { continue }
                                 v.push(Cfg { uni: Some(kind), multi: None, m, instruments, exec, limit, timeout_ms, seq: seq.clone(), gap_ms, pre, close_delay_ms, listeners: 1, remove_first: false });
                             }
